@@ -21,7 +21,7 @@ def get_cases(chk, quick, seed, n_pairs_quick=110, n_sim_quick=30, n_sim_thoroug
         corners = [{'f_map', 's_flatten'}, {'s_required', 'o_rest'}, {'s_required', 'o_grpc_rest'}, {'m_raw_operation', 'o_mixins'},
                    {'f_deppkg', 'm_dep_request'}, {'o_ads', 's_flatten'}, {'o_rest', 'm_paged_map'}, {'f_crossfile', 's_flatten'},
                    {'f_crossfile', 'o_ads'}, {'f_crossfile', 'f_nested'}, {'m_kw', 's_api_version'}, {'s_api_version', 'o_grpc_rest'},
-                   {'m_lro', 'o_grpc_rest'}, {'m_lro', 'o_rest'}, {'f_crossfile', 'm_lro'}, {'o_ads', 'o_grpc_rest'}, {'o_ads', 'o_rest'}, {'m_lro_empty', 'o_grpc_rest'}, {'o_ads', 'm_paged_map'}]
+                   {'m_lro', 'o_grpc_rest'}, {'m_lro', 'o_rest'}, {'f_crossfile', 'm_lro'}, {'f_deppkg', 'o_grpc_rest'}, {'f_deppkg', 'o_rest'}, {'o_ads', 'o_grpc_rest'}, {'o_ads', 'o_rest'}, {'m_lro_empty', 'o_grpc_rest'}, {'o_ads', 'm_paged_map'}]
         fixed = [c for c in pairs if set(c['features']) in corners]
         rest = [c for c in pairs if set(c['features']) not in corners]
         cases = singles + fixed + rnd.sample(rest, min(n_pairs_quick, len(rest)))
